@@ -187,6 +187,12 @@ func c18Ops(thorough bool) []c18Op {
 		{Name: "PutObject 70000", Req: func(map[string]string) *gw.Req {
 			return NewReq("PUT", gw.ObjPath(c18B, "dir/k2"), "", H("x-amz-meta-a", "1", "x-amz-meta-b", "two words"), big)
 		}},
+		{Name: "PutObject metadata with runs of blanks", Req: func(map[string]string) *gw.Req {
+			return NewReq("PUT", gw.ObjPath(c18B, "k1"), "", H("x-amz-meta-a", "annual  report   2024", "x-amz-meta-b", "two words"), []byte("blanks"))
+		}},
+		{Name: "CreateBucket BucketOwnerPreferred", Req: func(map[string]string) *gw.Req {
+			return NewReq("PUT", "/"+c18B, "", H("x-amz-object-ownership", "BucketOwnerPreferred"), nil)
+		}},
 		{Name: "PutObject with tagging header", Req: func(map[string]string) *gw.Req {
 			return NewReq("PUT", gw.ObjPath(c18B, "k3"), "", H("x-amz-tagging", "t1=v1&t2=v2"), []byte("tagged"))
 		}},
@@ -301,6 +307,7 @@ func c18Observers(st map[string]string) []*gw.Req {
 		NewReq("GET", "/"+c18B, "policy", nil, nil),
 		NewReq("GET", "/"+c18B, "acl", nil, nil),
 		NewReq("GET", "/"+c18B, "versioning", nil, nil),
+		NewReq("GET", "/"+c18B, "ownershipControls", nil, nil),
 		NewReq("GET", "/"+c18B, "versions", nil, nil),
 		NewReq("GET", gw.ObjPath(c18B, "k1"), gw.Q("versionId", "null"), nil, nil),
 		NewReq("HEAD", gw.ObjPath(c18B, "k1"), gw.Q("versionId", "null"), nil, nil),
@@ -439,7 +446,7 @@ func C18(r *ck.Run) {
 	if r.Thorough() {
 		depth = 3
 	}
-	r.Rule(fmt.Sprintf("every program of length <= %d over 31 (35 thorough) bucket, object, tagging, policy, listing and multipart operations (four of them signed with a wrong secret, one with a checksum that is not the body's, one completion that states object size 0) is executed twice from an empty store: through a gateway whose backend is s3proxy pointed at an endpoint process (a posix versitygw on loopback TCP), and against that endpoint directly; after every step 29 read requests (ListBuckets, GET whole / ranges, HEAD, attributes, tagging, listings v1/v2 with prefix / delimiter / max-keys, uploads, parts, bucket tagging / policy / ACL / versioning) are issued on both sides and every response (status, error code, content headers, user metadata, ETag, body with timestamps and ids masked) must be equal; callers: root and a userplus account that owns the bucket; distinct = (caller, program)", depth))
+	r.Rule(fmt.Sprintf("every program of length <= %d over 33 (37 thorough) bucket, object, tagging, policy, listing and multipart operations (four of them signed with a wrong secret, one with a checksum that is not the body's, one completion that states object size 0) is executed twice from an empty store: through a gateway whose backend is s3proxy pointed at an endpoint process (a posix versitygw on loopback TCP), and against that endpoint directly; after every step 30 read requests (ListBuckets, GET whole / ranges, HEAD, attributes, tagging, listings v1/v2 with prefix / delimiter / max-keys, uploads, parts, bucket tagging / policy / ACL / versioning) are issued on both sides and every response (status, error code, content headers, user metadata, ETag, body with timestamps and ids masked) must be equal; callers: root and a userplus account that owns the bucket; distinct = (caller, program)", depth))
 	r.Assume("the 'other S3 endpoint' is versitygw itself (posix backend) in a child process; error documents are compared by status and code only")
 	ops := c18Ops(r.Thorough())
 	var progs [][]int
@@ -453,7 +460,7 @@ func C18(r *ck.Run) {
 		}
 		for i := range ops {
 			// programs start by creating the bucket (everything else is uniformly NoSuchBucket), except the length-1 probes
-			if len(cur) == 0 && depth > 1 && ops[i].Name != "CreateBucket" && len(cur)+1 < depth {
+			if len(cur) == 0 && depth > 1 && ops[i].Name != "CreateBucket" && ops[i].Name != "CreateBucket BucketOwnerPreferred" && len(cur)+1 < depth {
 				if ops[i].Name != "PutObject small+meta" {
 					continue
 				}
